@@ -602,10 +602,32 @@ namespace mg
     r.vtx = base; return 0.0;
   }
 
-  /// feat3 mesh + root node from a raw mesh, the way tools/mesh_tools/mesh_indexer.cpp does it
-  template<typename Shape_> inline std::unique_ptr<NodeOf<Shape_>> make_node(const Raw& r, AtlasOf<Shape_>* atlas = nullptr)
+  /// Factory that hands a raw mesh to the ConformalMesh(Factory&) constructor: vertices-at-cell given, all other index
+  /// sets computed by RedundantIndexSetBuilder (what MeshFileReader does after parsing) - no boundary-facet re-orientation
+  template<typename Shape_> class RawFactory : public FEAT::Geometry::Factory<MeshOf<Shape_>>
+  {
+    const Raw& _r; Index _ne[4];
+  public:
+    typedef FEAT::Geometry::Factory<MeshOf<Shape_>> Base;
+    explicit RawFactory(const Raw& r) : _r(r) { for(auto& x : _ne) x = 0; _ne[0] = Index(r.vtx.size()); _ne[Shape_::dimension] = Index(r.cells.size()); }
+    virtual Index get_num_entities(int dim) override { return _ne[dim]; }
+    virtual void fill_vertex_set(typename Base::VertexSetType& vs) override { for(Index i = 0; i < _ne[0]; ++i) for(int c = 0; c < Shape_::dimension; ++c) vs[i][c] = _r.vtx[i][size_t(c)]; }
+    virtual void fill_index_sets(typename Base::IndexSetHolderType& ish) override
+    {
+      constexpr int sd = Shape_::dimension;
+      auto& is = ish.template get_index_set<sd, 0>(); is.set_index_bound(_ne[0]);
+      for(Index c = 0; c < _ne[sd]; ++c) for(int k = 0; k < is.num_indices; ++k) is(c, k) = _r.cells[c][size_t(k)];
+      FEAT::Geometry::RedundantIndexSetBuilder<Shape_>::compute(ish);
+      FEAT::Geometry::NumEntitiesExtractor<sd>::set_num_entities(ish, _ne);
+    }
+  };
+
+  /// feat3 mesh + root node from a raw mesh.  via_factory == false: the way tools/mesh_tools/mesh_indexer.cpp does it
+  /// (ConformalMesh(num_entities), fill vertices-at-cell, deduct_topology_from_top()); true: through RawFactory
+  template<typename Shape_> inline std::unique_ptr<NodeOf<Shape_>> make_node(const Raw& r, AtlasOf<Shape_>* atlas = nullptr, bool via_factory = false)
   {
     constexpr int sd = Shape_::dimension;
+    if(via_factory) { RawFactory<Shape_> fac(r); return NodeOf<Shape_>::make_unique(fac.make_unique(), atlas); }
     Index ne[4] = {0, 0, 0, 0}; ne[0] = Index(r.vtx.size()); ne[sd] = Index(r.cells.size());
     std::unique_ptr<MeshOf<Shape_>> mesh(new MeshOf<Shape_>(ne));
     auto& vs = mesh->get_vertex_set(); for(Index i = 0; i < ne[0]; ++i) for(int c = 0; c < sd; ++c) vs[i][c] = r.vtx[i][size_t(c)];
@@ -674,10 +696,14 @@ namespace mg
     int lattice_depth = 2;             // refinement depth the jitter has to survive
     bool allow_mirror = true;
     bool keep_file_parts = true;       // false: always go through the raw mesh (parts dropped)
+    const char* excl_tria_flip = "c10-tria-flip";   // known-finding switch: tetrahedral meshes avoid deduct_topology_from_top()
+    bool tetra_always_factory = false; // checks that do not own that finding never build tetrahedra through deduct_topology_from_top()
   };
   struct GenInfo
   {
     std::string src; bool file_unmodified = false, renumbered = false; int reoriented = 0, reflected = 0, aff = 0; double jit = 0.0;
+    std::string build;         // how the feat3 mesh was made from the raw mesh: "deduct" | "factory" | "" (feat3 object used as is)
+    std::string invalid;       // non-empty: the mesh feat3 built from a valid raw mesh fails the structural validator
     bool neigh_valid = true;   // MeshFileReader does not fill the neighbour index set (callers that need it call fill_neighbors())
     vf::J desc = vf::J::obj();
   };
@@ -744,7 +770,12 @@ namespace mg
         // ShapeConvertFactory applied to a grid of the other shape
         int nx, ny, nz; dims(nx, ny, nz); if(sd == 3) { nx = std::min(nx, 2); ny = std::min(ny, 2); nz = std::min(nz, 2); }
         Raw oraw = grid(!simplex, sd, nx, ny, nz, {}, 0);
-        auto onode = make_node<Other>(oraw);
+        // the intermediate mesh of the other shape is built like every raw mesh (see below); an inconsistent result is reported
+        const bool ofac = (sd == 3 && !simplex && (o.tetra_always_factory || c.excl(o.excl_tria_flip))) || t.flag(1, 3);
+        auto onode = make_node<Other>(oraw, nullptr, ofac);
+        gi.invalid = validate(flatten<Other>(*onode->get_mesh(), true)); gi.build = ofac ? "factory" : "deduct";
+        gi.desc.set("convert_input_build", gi.build);
+        if(!gi.invalid.empty()) { gi.src = "convert"; gi.desc.set("src", gi.src); c.label("src:convert"); return L; }
         FEAT::Geometry::ShapeConvertFactory<MeshOf<Shape_>> fac(*onode->get_mesh());
         std::unique_ptr<MeshOf<Shape_>> m(new MeshOf<Shape_>(fac));
         gi.src = "convert"; gi.desc.set("convert_from_grid", vf::J(std::vector<int>{nx, ny, nz}));
@@ -761,7 +792,14 @@ namespace mg
       gi.aff = t.pick({4, 1, 1, 1, 1, 1}); affine(raw, gi.aff);
       static const double alphas[3] = {0.0, 0.08, 0.2};
       gi.jit = jitter(raw, t, alphas[t.pick({3, 1, 1})], o.lattice_depth);
-      L.atlas.reset(new AtlasOf<Shape_>()); L.node = make_node<Shape_>(raw, L.atlas.get()); gi.neigh_valid = true;
+      // two ways to turn a raw mesh into a feat3 mesh; tetrahedral meshes avoid deduct_topology_from_top() while the
+      // known finding "c10-tria-flip" is active (its boundary-facet re-orientation corrupts the edges-at-triangle set)
+      bool via_factory = t.flag(1, 3);
+      if(sd == 3 && simplex && (o.tetra_always_factory || c.excl(o.excl_tria_flip))) via_factory = true;
+      gi.build = via_factory ? "factory" : "deduct";
+      L.atlas.reset(new AtlasOf<Shape_>()); L.node = make_node<Shape_>(raw, L.atlas.get(), via_factory); gi.neigh_valid = true;
+      gi.invalid = validate(flatten<Shape_>(*L.node->get_mesh(), true));
+      gi.desc.set("build", gi.build); c.label("build:" + gi.build);
       if(raw.cells.size() <= 12) gi.desc.set("mesh", raw.json());
     }
     gi.desc.set("src", gi.src);
